@@ -98,6 +98,7 @@ type State struct {
 	sched     []string
 	lockset   []string
 	pendingDocAssign []docAssign
+	pendingStrChoice []strChoice
 	sumDone   bool
 	stops     []stopPoint
 	arrived   int
